@@ -53,7 +53,7 @@ TCall ==
 K == [typeKey |-> st.cfg.typeKey, zoneKey |-> st.cfg.zoneKey, ctKey |-> st.cfg.ctKey]
 
 \* which environment steps end a claim's freshness / count as tampering with it
-SpecEdits == {"addReq", "delReq", "delReqKey", "setTaints", "taint+", "taint-", "startupTaint+", "tlabel", "tannotation",
+SpecEdits == {"addReq", "delReq", "delReqKey", "setTaints", "setStartupTaints", "taint+", "taint-", "startupTaint+", "tlabel", "tannotation",
               "expireAfter", "tgp"}
 ClaimTamper == {"label", "hashAnn", "verAnn", "dropAnn"}
 StepFresh(n) ==
@@ -84,7 +84,7 @@ DriftChecks(n) ==
         pn == st.cfg.pool
         q == Quiescent(p, st.cfg.cur)
         ev == Evaluated(p, x, pn)
-    IN  Chk(G_C15_DriftDecision(p, x, y, pn), "G_C15_DriftDecision", "missed:" \o Why(p, x) \o ":" \o Stage(x))
+    IN  Chk(G_C15_DriftDecision(p, x, y, pn), "G_C15_DriftDecision", "missed:" \o Why(p, x))
      \o Chk(G_C15_NoSpuriousDrift(p, x, y, st.pre.types, K, pn), "G_C15_NoSpuriousDrift", "spurious:" \o y.reason)
      \* a NodeClaim freshly created from the pool and launched is not reported Drifted
      \o Chk((ev /\ q /\ Get(st.fresh, n, FALSE)) => y.drifted # "True", "Inv_C15_NoSelfDrift", y.reason \o ":" \o Why(p, x))
